@@ -148,6 +148,38 @@ def run(chk):
             okp &= bool(inner) and inner[0] == "slice" and inner[1] == ("param", "digest") and inner[2] == Lin.const(0).key()
     chk.ob("R03.3", "converter: the integer is read from a prefix of the digest (leftmost bytes)", okp, loc=q, key="C03|R03.3|prefix", detail="the converted integer is not taken from the leading bytes of the digest")
 
+    # shift amount: max(0, 8*len(truncated digest) - bit_length(order)) - derived from the byte
+    # length of the digest (leading zero bits count), not from the value
+    okshift = bool(it.watch_returns[q])
+    for v, s in it.watch_returns[q]:
+        t = v.lin.single_sym() if isinstance(v, VInt) else None
+        if not (t and t[0] == "shr"):
+            okshift = False
+            continue
+        src = dict((a.t, b) for a, b in t[1][0])
+        ints = [k for k in src if k[0] == "int_of"]
+        amount = dict((a.t, b) for a, b in t[2][0])
+        mx = [k for k in amount if k[0] == "max"]
+        if len(ints) != 1 or len(mx) != 1 or amount[mx[0]] != 1:
+            okshift = False
+            continue
+        X = ints[0][1][1]                      # the bytes the integer was read from
+        args = mx[0][1:]
+        zero = Lin.const(0).key()
+        other = [a for a in args if a != zero]
+        if zero not in args or len(other) != 1:
+            okshift = False
+            continue
+        co = dict((a.t, b) for a, b in other[0][0])
+        want_len = ("len", X)
+        bl = [k for k in co if k[0] == "bit_length"]
+        okshift &= co.get(want_len) == 8 and len(bl) == 1 and co[bl[0]] == -1 and len(co) == 2 and other[0][1] == 0
+        if bl:
+            inner = dict((a.t, b) for a, b in bl[0][1][0])
+            okshift &= any(k[0] == "call" and k[2] == "order" for k in inner) and len(inner) == 1
+    chk.ob("R03.3", "converter: e = int(digest') >> max(0, 8*len(digest') - bit_length(order)) (shift from the byte length, not from the value)", okshift, loc=q, key="C03|R03.3|shift",
+           detail="the truncation shift is not max(0, 8*len(digest) - bit_length(order)) of the bytes that were converted")
+
     # ---------------- R03.4
     q = "keys:SigningKey.from_secret_exponent"
     it = W.interp()
